@@ -47,6 +47,9 @@ type result struct {
 // builders: system name -> constructs the System (procs added, not started) for a configuration
 var builders = map[string]func(cfg map[string]int) (*steplib.System, error){}
 
+// stepHooks: system name -> a per-step hook (sees and may amend every observation; used to keep shadow state in step)
+var stepHooks = map[string]func(cfg map[string]int, sys *steplib.System) func(*steplib.Obs){}
+
 // envs: system name -> environment actions (spec processes that are not archetypes) for a configuration
 var envs = map[string]func(cfg map[string]int) []steplib.EnvAction{}
 
@@ -87,8 +90,13 @@ func runCase(k kase) (res result) {
 	if mk, ok := envs[k.System]; ok {
 		env = mk(k.Cfg)
 	}
+	var hook func(*steplib.Obs)
+	if mk, ok := stepHooks[k.System]; ok {
+		hook = mk(k.Cfg, sys)
+	}
 	if k.Auto != nil {
 		w := steplib.NewWalker(sys, k.Auto.Seed)
+		w.OnStep = hook
 		w.Env = env
 		res.Steps = w.Walk(k.Auto.Steps)
 		return
@@ -111,6 +119,9 @@ func runCase(k kase) (res result) {
 		}
 		if !isEnv {
 			ob = sys.Step(name, ch)
+		}
+		if hook != nil {
+			hook(&ob)
 		}
 		res.Steps = append(res.Steps, ob)
 		if len(ob.Outcome) >= 5 && ob.Outcome[:5] == "error" || ob.Outcome == "hang" {
